@@ -94,6 +94,8 @@ class SimLoop(base_events.BaseEventLoop):
         self.stalls = 0
         self.handle_wall = _walltime.monotonic()
         self.set_exception_handler(self._record_exception)
+        # tasks that ended with an exception, recorded when they end (not when the garbage collector finds them)
+        self.task_failures = []
 
     # -- clock ---------------------------------------------------------
     def time(self):
@@ -105,6 +107,21 @@ class SimLoop(base_events.BaseEventLoop):
 
     def _write_to_self(self):
         pass
+
+    def _note_task_end(self, handle):
+        """Called after a handle ran: if it was a task's step and the task ended with an exception, record it.
+        Adds no callback of its own, so the schedule is exactly what it would be without the record."""
+        task = getattr(handle._callback, "__self__", None)
+        if isinstance(task, asyncio.Task) and task.done() and not task.cancelled():
+            exc = getattr(task, "_exception", None)     # does not mark the exception as retrieved
+            if exc is not None and not getattr(task, "_sim_noted", False):
+                try:
+                    task._sim_noted = True
+                except AttributeError:
+                    pass
+                code = getattr(task.get_coro(), "cr_code", None)
+                self.task_failures.append({"where": "%s:%s" % (code.co_filename, code.co_qualname) if code else "?",
+                                           "exc": exc})
 
     def _record_exception(self, loop, context):
         exc = context.get("exception")
@@ -239,6 +256,7 @@ class SimLoop(base_events.BaseEventLoop):
             raise SimBudgetExceeded(f"step budget ({self.max_steps})")
         self.handle_wall = _walltime.monotonic()   # (harness bookkeeping only: hang diagnosis)
         handle._run()
+        self._note_task_end(handle)
         handle = None
         if self.step_hook is not None:
             self.step_hook()
